@@ -77,7 +77,8 @@ func CleanDomain(addr string) (string, error) {
 		return addr, err
 	}
 
-	uDomain, err := idna.ToUnicode(domain)
+	// A-labels are case-insensitive, idna.ToUnicode decodes only "xn--".
+	uDomain, err := idna.ToUnicode(lowerASCII(domain))
 	if err != nil {
 		return addr, err
 	}
@@ -88,6 +89,15 @@ func CleanDomain(addr string) (string, error) {
 	}
 
 	return mbox + "@" + uDomain, nil
+}
+
+func lowerASCII(s string) string {
+	return strings.Map(func(r rune) rune {
+		if r >= 'A' && r <= 'Z' {
+			return r + ('a' - 'A')
+		}
+		return r
+	}, s)
 }
 
 // Equal reports whether addr1 and addr2 are considered to be
